@@ -1,7 +1,7 @@
 import HyperModel.Generated.FactsC34
 /-!
 Model of `utils/utils.go: FormatBalance / ParseBalance` (property C34) **with the repair of
-`/verif/fixes/C34-balance-integer-arithmetic.patch`** (integer arithmetic instead of
+`/verif/fixes/C34-balance-integer-arithmetic.patch`** (committed in /repo as f4579f3) (integer arithmetic instead of
 float64).  Core Lean only.  Strings are lists of bytes (`Nat`); `'0' = 48`, `'.' = 46`.
 -/
 namespace HyperModel.Balance
